@@ -68,6 +68,19 @@ fn payload(obj: u32, class: &str, seed: u64) -> Vec<u8> {
         "gzfull" => cbh_codec::compress(&random(&mut rng, 100)),
         "big" => random(&mut rng, 4 << 20),
         "huge" => random(&mut rng, 24 << 20),
+        // highly compressible payloads whose length sits on / just past a multiple of the 32 KiB deflate window
+        c if c.starts_with("rep") => vec![b'A' + (obj % 7) as u8; c[3..].parse().expect("repN")],
+        c if c.starts_with("json") => {
+            let n: usize = c[4..].parse().expect("jsonN");
+            let mut v = Vec::with_capacity(n + 64);
+            let mut i = 0u32;
+            while v.len() < n {
+                v.extend_from_slice(format!("{{\"run\":{},\"value\":{}.5,\"unit\":\"ns\"}},", obj, i % 97).as_bytes());
+                i += 1;
+            }
+            v.truncate(n);
+            v
+        }
         _ => random(&mut rng, 64 + obj as usize),
     }
 }
@@ -427,10 +440,67 @@ fn cmd_child_op(root: &str, kind: &str, obj: u32, class: &str, seed: u64) {
         let lim = libc::rlimit { rlim_cur: 0, rlim_max: 0 };
         libc::setrlimit(libc::RLIMIT_CORE, &lim);
     }
+    // H_STORE_FSIZE=<bytes>: the process may not write files larger than that (RLIMIT_FSIZE, SIGXFSZ ignored): writes beyond
+    // the limit fail with EFBIG - a write fault in the middle of storing an object
+    if let Some(limit) = env::var("H_STORE_FSIZE").ok().and_then(|v| v.parse::<u64>().ok()) {
+        unsafe {
+            libc::signal(libc::SIGXFSZ, libc::SIG_IGN);
+            let lim = libc::rlimit { rlim_cur: limit, rlim_max: limit };
+            libc::setrlimit(libc::RLIMIT_FSIZE, &lim);
+        }
+    }
     let st = verif::local_storage(PathBuf::from(root));
     let bytes = payload(obj, class, seed);
     let (r, o, junk) = run_op(&st, kind, &bytes, &[]);
     println!("{}", json!({"r":r,"obj":o,"junk":junk}));
+}
+
+/// efbig <out> <work>: the writing process hits a file-size limit in the middle of storing a large object (a write fault,
+/// not a crash): the operation must report the failure and the key must hold what it held before; a fresh process looks.
+fn cmd_efbig(out: &str, work: &str) {
+    let tr = Tracer::create(out);
+    let work = PathBuf::from(work);
+    let seed = vrt::seed_from_env();
+    for (idx, (init, kind)) in [("empty", "put"), ("old", "puto"), ("empty", "puto"), ("old", "put")].iter().enumerate() {
+        let sb = Sandbox::new(&work, &format!("f{idx}"));
+        let st = verif::local_storage(sb.root.clone());
+        let init_val = if *init == "old" {
+            rt().block_on(st.put(key(), &payload(OLD, "small", seed))).expect("seed old");
+            OLD
+        } else {
+            0
+        };
+        tr.emit(&json!({"ev":"reset","init":init_val,"class":"efbig","kindof":kind,"initk":init}));
+        tr.emit(&json!({"ev":"inv","t":1,"kind":kind,"obj":11}));
+        let outp = Command::new(self_exe())
+            .args(["child-op", sb.root.to_str().unwrap(), kind, "11", "big", &seed.to_string()])
+            .env("H_STORE_FSIZE", "65536")
+            .env_remove(verif::CRASH_AT_VARIABLE)
+            .stdout(Stdio::piped())
+            .stderr(Stdio::null())
+            .output()
+            .expect("spawn child");
+        use std::os::unix::process::ExitStatusExt;
+        if outp.status.signal().is_some() {
+            tr.emit(&json!({"ev":"crash","t":1,"signal":outp.status.signal()}));
+        } else {
+            let v: Value = serde_json::from_slice(&outp.stdout).unwrap_or(json!({"r":"err","obj":0,"junk":0}));
+            tr.emit(&json!({"ev":"res","t":1,"r":v["r"],"obj":v["obj"],"junk":v["junk"]}));
+        }
+        let insp = Command::new(self_exe())
+            .args(["inspect", sb.root.to_str().unwrap(), &seed.to_string(), "11", "big"])
+            .env_remove(verif::CRASH_AT_VARIABLE)
+            .env_remove("H_STORE_FSIZE")
+            .output()
+            .expect("spawn inspector");
+        let evs: Value = serde_json::from_slice(&insp.stdout).expect("inspector output");
+        for e in evs.as_array().expect("array") {
+            tr.emit(e);
+        }
+        let (files, temps, outside) = sb.survey();
+        tr.emit(&json!({"ev":"tree","files":files,"temps":temps,"outside":outside,"crashes":0}));
+    }
+    println!("{}", json!({"scenarios":4}));
 }
 
 /// fresh process: look at the store through the public operations only
@@ -584,14 +654,15 @@ fn cmd_rt(out: &str, work: &str) {
     let seed = vrt::seed_from_env();
     let mut n = 0;
     // every payload class: put, get, put again (must fail, unchanged), overwrite, get, delete, get, delete
-    for class in ["empty", "one", "gzmagic", "gzfull", "small", "big"] {
+    for class in ["empty", "one", "gzmagic", "gzfull", "small", "big", "rep32767", "rep32768", "rep32769", "rep32775", "rep65537", "rep98310",
+                  "json32770", "json65540"] {
         let sb = Sandbox::new(&work, &format!("p{class}"));
         let st = verif::local_storage(sb.root.clone());
         let a = payload(11, class, seed);
         let b = payload(12, "small", seed);
         let c = payload(13, if class == "big" { "big" } else { "small" }, seed);
         let table = vec![(11, a.clone()), (12, b.clone()), (13, c.clone())];
-        tr.emit(&json!({"ev":"reset","init":0,"class":class,"len":a.len()}));
+        tr.emit(&json!({"ev":"reset","init":0,"class":class,"len":a.len(),"nofault":1}));
         let script: [(&str, u32); 12] = [("get", 0), ("list", 0), ("put", 11), ("get", 0), ("list", 0), ("put", 12), ("get", 0),
                                          ("puto", 13), ("get", 0), ("del", 0), ("get", 0), ("del", 0)];
         for (kind, obj) in script {
@@ -686,6 +757,7 @@ fn main() {
         Some("random") => cmd_random(&a[2], &a[3], a[4].parse().unwrap()),
         Some("crash") => cmd_crash(&a[2], &a[3], &a[4]),
         Some("rt") => cmd_rt(&a[2], &a[3]),
+        Some("efbig") => cmd_efbig(&a[2], &a[3]),
         Some("race") => cmd_race(&a[2], &a[3], a[4].parse().unwrap()),
         Some("keys") => cmd_keys(&a[2], &a[3], &a[4]),
         Some("child-op") => cmd_child_op(&a[2], &a[3], a[4].parse().unwrap(), &a[5], a[6].parse().unwrap()),
